@@ -299,6 +299,52 @@ func checkpointFamily(tr *kit.Tree, node *kit.Node, sel int, cs *kit.CaseStats) 
 	}
 	cs.Class("checkpoint:booted")
 	cs.Classf("checkpoint:followed=%d", min(len(rest), 5))
+
+	// second part: a checkpoint node and a from-genesis node that both stand at
+	// the checkpoint are fed every descendant of the checkpoint block (forks
+	// above it included) in list order; they must take the same decisions.
+	be2, err := kvm.NewBackend("mem")
+	if err != nil {
+		return fmt.Errorf("INFRA: %v", err)
+	}
+	defer be2.Close()
+	store2, tipState2, err := chain.NewDBStoreAtCheckpoint(be2.DB, cp.Parent.Ledger.State, cp.Block, nil)
+	if err != nil {
+		return fmt.Errorf("NewDBStoreAtCheckpoint at %v failed: %v", cp.Index(), err)
+	}
+	cm2 := chain.NewManager(store2, tipState2)
+	twin, err := linearTwin(tr, cp)
+	if err != nil {
+		return err
+	}
+	defer twin.Close()
+	forks := 0
+	for _, n := range tr.Nodes {
+		if n == cp || !cp.IsAncestorOf(n) {
+			continue
+		}
+		e1 := cm2.AddBlocks([]types.Block{n.Block})
+		e2 := twin.CM.AddBlocks([]types.Block{n.Block})
+		if (e1 == nil) != (e2 == nil) {
+			return fmt.Errorf("checkpoint node and from-genesis node disagree on block %v above the checkpoint %v: %v vs %v", n.Index(), cp.Index(), e1, e2)
+		}
+		if cm2.Tip() != twin.CM.Tip() || !bytes.Equal(refl.StateBytes(cm2.TipState()), refl.StateBytes(twin.CM.TipState())) {
+			return fmt.Errorf("after block %v: checkpoint node is on %v, from-genesis node on %v", n.Index(), cm2.Tip(), twin.CM.Tip())
+		}
+		for h := cp.Height; h <= cm2.Tip().Height+1; h++ {
+			a, aok := cm2.BestIndex(h)
+			b, bok := twin.CM.BestIndex(h)
+			if a != b || aok != bok {
+				return fmt.Errorf("after block %v: checkpoint node BestIndex(%d) = %v,%v; from-genesis node %v,%v", n.Index(), h, a, aok, b, bok)
+			}
+		}
+		if n.Parent != nil && tr.ByID[twin.CM.Tip().ID] != n {
+			forks++
+		}
+	}
+	if forks > 0 {
+		cs.Class("checkpoint:forks-above-checkpoint")
+	}
 	return nil
 }
 
